@@ -19,6 +19,7 @@ enum FT {
     OptI32,
     VecStr,
     Nested,
+    VecOptI32,
 }
 
 const FTS: [FT; 8] = [FT::Bool, FT::U8, FT::I64, FT::F64, FT::Str, FT::OptI32, FT::VecStr, FT::Nested];
@@ -34,6 +35,7 @@ impl FT {
             FT::OptI32 => "Option<i32>",
             FT::VecStr => "Vec<String>",
             FT::Nested => "Inner",
+            FT::VecOptI32 => "Vec<Option<i32>>",
         }
     }
     /// (Rust expression, JSON text) pairs at the corners of the domain
@@ -46,12 +48,13 @@ impl FT {
             FT::Str => vec![("String::new()", "\"\""), ("\"\u{e9}\\\"\\\\\\n\u{1d11e}\".to_string()", "\"\u{e9}\\\"\\\\\\n\u{1d11e}\""), ("\"plain\".to_string()", "\"plain\"")],
             FT::OptI32 => vec![("None", "null"), ("Some(-5i32)", "-5"), ("Some(i32::MAX)", "2147483647")],
             FT::VecStr => vec![("Vec::<String>::new()", "[]"), ("vec![\"a\".to_string()]", "[\"a\"]"), ("vec![\"a\".to_string(), \"\".to_string()]", "[\"a\",\"\"]")],
+            FT::VecOptI32 => vec![("Vec::<Option<i32>>::new()", "[]"), ("vec![None::<i32>]", "[null]"), ("vec![Some(1i32), None, Some(3), None]", "[1,null,3,null]")],
             FT::Nested => vec![("Inner { x: 1, y: None }", "{\"x\":1,\"y\":null}"), ("Inner { x: -7, y: Some(\"z\".to_string()) }", "{\"x\":-7,\"y\":\"z\"}")],
         }
     }
 }
 
-const RENAMES: [Option<&str>; 7] = [None, Some("plain"), Some("with space"), Some("quo\\\"te"), Some("\u{43a}\u{43b}\u{44e}\u{447}"), Some("a\\\\b"), Some("{\\\"x\\\":1}")];
+const RENAMES: [Option<&str>; 9] = [None, Some("plain"), Some(" lead"), Some("trail "), Some("with space"), Some("quo\\\"te"), Some("\u{43a}\u{43b}\u{44e}\u{447}"), Some("a\\\\b"), Some("{\\\"x\\\":1}")];
 
 fn json_key(rust_lit_inner: &str) -> String {
     // the rename string as written inside a Rust string literal uses the same escapes JSON needs
@@ -355,6 +358,10 @@ pub fn run(mut cx: Ctx) -> ! {
             }
         }
     }
+    // a vector whose elements are optional (null elements keep their place), alone and next to other fields
+    tuples.push(vec![FT::VecOptI32]);
+    tuples.push(vec![FT::Str, FT::VecOptI32]);
+    tuples.push(vec![FT::VecOptI32, FT::OptI32]);
     for (ti, t) in tuples.iter().enumerate() {
         for via_map in [false, true] {
             g.named(t, via_map, &[]);
